@@ -311,7 +311,7 @@ def integer_case(rng):
 
 
 def hedgehog_case(rng):
-    sh = [rng.randint(5, 9) for _ in range(3)]
+    sh = [rng.randint(8, 11) for _ in range(3)]
     cell = [F(rng.choice([1, 2, 3]), rng.choice([1, 2, 4])) for _ in range(3)]
     off = [rng.choice([0.13, -0.21, 0.37, 0.5, -0.42]) for _ in range(3)]
     return dict(kind="hedgehog", sh=sh, cell=[g.qs(x) for x in cell], off=[g.qs(x) for x in off],
